@@ -352,6 +352,16 @@ def run(ctx):
                 except Exception:
                     small = case
                 nshrunk += 1
+                if small is not case:
+                    try:
+                        s2 = semcheck.spec_batch(drv, [top_program(small)])[0]
+                        sub2, top2 = work(small)
+                        for w2, g2 in confirm(small, s2, sub2, judge(small, s2, sub2, top2)):
+                            if same(g2, sig):
+                                what = w2       # describe the shrunk program, not the original one
+                                break
+                    except Exception:
+                        pass
             ssrc = wrapper_src(small)[0]
             ctx.fail(what + " | wrapped program: " + ssrc.replace("\n", " "),
                      {"case": small, "wrapped_src": ssrc, "top_src": spine.to_src(top_program(small))}, sig)
